@@ -216,7 +216,7 @@ func ruleLoopSessionUpdate(p *Program, r *Result, L *ssa.Function, handles []ssa
 			"the session entry is not updated with (response header, response continuation): the stored sequence number or continuation would be another one's")
 		// updater body
 		if updFn != nil {
-			ruleSessionUpdater(p, r, updFn)
+			ruleSessionUpdater(p, r, p.view(updFn))
 		}
 	}
 }
